@@ -13,12 +13,16 @@ Record obs := mkObs {
   o_own : nat; o_peer : nat
 }.
 
+(* the call a node died in: a state-machine op of p, or the ProcessChanSyncMsg of a
+   restart (nothing delivered before it; the peer's ProcessChanSyncMsg completes) *)
+Inductive crashcall := CCOp (o : op) | CCSync.
+
 Inductive tstep :=
 | TOp (o : op) (expect : res)    (* model result must be [expect]; state compared afterwards *)
 | TSkip                          (* implementation refused for a reason outside the model: state unchanged *)
 | TReload (p : bool) (r : obs)   (* pure observation: p's state re-opened from disk *)
 | TCut (ka kb : nat) (kindsA kindsB : list N)   (* disconnect + resync; kinds of the messages A / B retransmit *)
-| TCrashIn (o : op) (p : bool) (r : obs) (kindsA kindsB : list N).
+| TCrashIn (o : crashcall) (p : bool) (r : obs) (kindsA kindsB : list N).
     (* WRITE-LEVEL crash: p's node died somewhere inside its call [o]; r = p's state re-opened
        from disk; then everything in flight is lost and both sides restart + resync (= XCut 0 0).
        Accepted iff r and what follows agree with the call NOT having happened or with the call
@@ -91,9 +95,26 @@ Definition crash_cand (c : cfg) (s : xsys) (p : bool) (ro : obs) (ea eb : list N
   | d => ((30 + d)%N, s)
   end.
 
+(* the two model states a call interrupted by a crash may leave behind:
+   (result of the complete call, state after it, state as if p's part never happened).
+   CCSync: the restart as a whole is XCut 0 0; without p's part p is just [restore]d
+   (idempotent, C02_restore_idempotent) and keeps its LastWasRevoke flag, while the
+   peer's ProcessChanSyncMsg has run. *)
+Definition crash_states (c : cfg) (s : xsys) (o : crashcall) (p : bool) : res * xsys * xsys :=
+  match o with
+  | CCOp o' => let '(rs, s1) := xstep c s (XOp o') in (rs, s1, s)
+  | CCSync =>
+    let '(rs, s1) := xstep c s (XCut 0 0) in
+    (rs, s1, mkX (set (xs s1) p (restore p (get (xs s) p)))
+                 (if p then lwrA s else lwrA s1) (if p then lwrB s1 else lwrB s))
+  end.
+
 (* returns [] if the whole trace agrees, else [step index; code]:
    code 1 = result differs, 2..7 = field of A, 12..17 = field of B,
-   20 = model could not initialise, 30+ = reload projection differs *)
+   20 = model could not initialise, 30+ = reload projection differs,
+   40 / 41 = retransmitted message kinds of A / B differ,
+   [50; x; y] = write-level crash: x = code against "the call completed", y = code
+   against "the call did not happen" *)
 Fixpoint check_steps (c : cfg) (s : xsys) (l : list (tstep * obs * obs)) (i : N) : list N :=
   match l with
   | [] => []
@@ -118,12 +139,12 @@ Fixpoint check_steps (c : cfg) (s : xsys) (l : list (tstep * obs * obs)) (i : N)
     | TCrashIn o p ro ea eb =>
       (* candidate 1: the call completed (only if the model accepts the call);
          candidate 2: the call did not happen.  Error = [i; 50; code of 1; code of 2]. *)
-      let '(rs, s1) := xstep c s (XOp o) in
+      let '(rs, s1, s0) := crash_states c s o p in
       let after := if res_eqb rs Ok then crash_cand c s1 p ro ea eb oa ob else (1%N, s1) in
       match after with
       | (0%N, s') => check_steps c s' r (i + 1)%N
       | (da, _) =>
-        match crash_cand c s p ro ea eb oa ob with
+        match crash_cand c s0 p ro ea eb oa ob with
         | (0%N, s') => check_steps c s' r (i + 1)%N
         | (db, _) => [i; 50%N; da; db]
         end
